@@ -34,6 +34,11 @@ POINT_VALUES = [Fraction(v) for v in (-3, -2, -1, 0, 1, 2, 3, 4, 5)] + [
 
 def points_for(case_key, names, n=8):
     out = []
+    # two fixed corner points first: everything zero (0**negative, division by zero: both sides must fail alike),
+    # everything minus one (sign rules)
+    from fractions import Fraction
+    out.append({nm: Fraction(0) for nm in names})
+    out.append({nm: Fraction(-1) for nm in names})
     for i in range(n):
         env = {}
         for nm in sorted(names):
